@@ -163,3 +163,162 @@ def shrink_candidates(case):
             if key == "delete_old":
                 kw["delete_old_all"] = False
             yield with_scn(**kw)
+
+
+# ======================================================================================
+# history-level (parent side) checks
+# ======================================================================================
+def _viol(prop, vclass, msg, inc, case, site=None):
+    known = any(e.get("property") == prop and e.get("class") == vclass
+                and e.get("site") in (None, site) for e in case.get("known", []))
+    return {"prop": prop, "class": vclass, "msg": str(msg)[:600], "site": site, "inc": inc,
+            "step": None, "known": known}
+
+
+def history_c04(case, inc, spec, code, events, end, rundir, res):
+    """Rows + live fractions on disk sum, per column, to the number of idle steps so far."""
+    import numpy as np
+    from sim.monitors import parse_data_file, LD
+    out = []
+    mon = (end.get("mon") or {}).get("C04Monitor") or {}
+    ic = mon.get("idle_counts") or []
+    led = res.setdefault("_ledger", None)
+    if ic:
+        arr = np.array([LD(x) for x in ic], dtype=LD)
+        res["_ledger"] = arr if led is None else led + arr
+    cfg = read_restart(rundir)
+    if cfg is None or cfg == "UNREADABLE" or res["_ledger"] is None:
+        return out
+    n = len(res["_ledger"])
+    dfile = os.path.join(rundir, cfg["output"].get("data_file", "infretis_data.txt"))
+    rows = parse_data_file(dfile)
+    total = np.zeros(n, dtype=LD)
+    seen = set()
+    for r in rows:
+        if r[0] == "TORN":
+            out.append(_viol("C04", "torn_row", f"data file has a torn row: {r[1]!r}", inc, case))
+            continue
+        if r[0] in seen:
+            out.append(_viol("C04", "row_twice", f"path {r[0]} appears twice in the data file", inc, case))
+        seen.add(r[0])
+        full = np.zeros(n, dtype=LD)
+        full[:len(r[3])] = r[3]
+        total += full
+    active = [int(a) for a in cfg["current"]["active"]]
+    for pn in active:
+        if pn in seen:
+            out.append(_viol("C04", "row_for_live_path", f"live path {pn} has a data row", inc, case))
+    for pn, fr in cfg["current"].get("frac", {}).items():
+        if int(pn) not in active:
+            out.append(_viol("C04", "frac_for_dead_path", f"restart file keeps weights of path {pn} "
+                             f"which is not live", inc, case))
+        total += np.array([LD(x) for x in fr], dtype=LD)
+    led = res["_ledger"]
+    for c in range(n):
+        if abs(float(total[c] - led[c])) > 1e-6:
+            out.append(_viol("C04", "history_ledger_mismatch",
+                             f"after incarnation {inc}: column {c} rows+live = {float(total[c])!r}, "
+                             f"idle steps = {float(led[c])!r}", inc, case))
+            break
+    if case["scn"]["workers"] == 1 and code == 0:
+        cstep = int(cfg["current"]["cstep"])
+        for c in range(n - 1):
+            if abs(float(total[c]) - cstep) > 1e-6:
+                out.append(_viol("C04", "one_worker_total_not_cstep",
+                                 f"column {c}: {float(total[c])!r} != cstep {cstep}", inc, case))
+                break
+    return out
+
+
+def history_c17(case, inc, spec, code, events, end, rundir, res):
+    out = []
+    hist = res.setdefault("_c17", {"done": 0})
+    started = [ev for ev in events if ev["ev"] == "start"]
+    finished = any(ev["ev"] == "finished" for ev in events)
+    setup_none = any(ev["ev"] == "setup_none" for ev in events)
+    treated = sum(1 for ev in events if ev["ev"] == "treated")
+    hist["done"] += treated
+    cfg = read_restart(rundir)
+    target = spec.get("steps")
+    if cfg in (None, "UNREADABLE"):
+        return out
+    cstep = int(cfg["current"]["cstep"])
+    if cstep != hist["done"]:
+        out.append(_viol("C17", "cstep_not_completed_moves",
+                         f"after incarnation {inc}: restart file cstep {cstep}, completed moves "
+                         f"{hist['done']}", inc, case))
+    if setup_none and target is not None and target > cstep and inc > 0:
+        out.append(_viol("C17", "restart_refused",
+                         f"incarnation {inc}: steps raised to {target} > cstep {cstep} but the restart "
+                         f"did not start (setup_config returned None); restarted_from="
+                         f"{cfg['current'].get('restarted_from')}", inc, case,
+                         site="restart_after_idle_restart"))
+    if finished and code == 0:
+        if target is not None and cstep != max(target, started[0]["cstep"] if started else 0):
+            out.append(_viol("C17", "final_cstep_not_steps",
+                             f"incarnation {inc} finished with cstep {cstep}, steps {target}", inc, case))
+        if cfg["current"].get("locked"):
+            out.append(_viol("C17", "finished_with_locked",
+                             f"incarnation {inc} finished but restart file lists in-flight jobs "
+                             f"{cfg['current']['locked']}", inc, case,
+                             site="remaining_lt_workers"))
+    return out
+
+
+def history_c07(case, inc, spec, code, events, end, rundir, res):
+    """No two distinct jobs of the whole history share a stream (key or state)."""
+    out = []
+    led = res.setdefault("_c07", {"jobs": [], "completed": set()})
+    done = set((inc, ev["jid"]) for ev in events if ev["ev"] == "complete" and not ev.get("failed"))
+    for ev in events:
+        if ev["ev"] != "streams":
+            continue
+        job = {"inc": inc, "jid": ev["jid"], "reissue": ev["reissue"], "ens": ev["ens"],
+               "paths": ev["paths"], "streams": ev["streams"], "restarted": ev["restarted"],
+               "restart_locked": ev["restart_locked"], "workers": ev["workers"]}
+        mine = set()
+        for s in job["streams"]:
+            ident = (s["entropy"], tuple(s["key"]))
+            if ident in mine:
+                out.append(_viol("C07", "stream_reused", f"job {inc}/{job['jid']} uses stream "
+                                 f"{ident} twice", inc, case, site="within_job"))
+            mine.add(ident)
+        for old in led["jobs"]:
+            # a re-issued job may legitimately carry the streams of the lost job it replaces
+            # a job lost in a crash (never consumed) left no trace: the job that replaces it after
+            # the restart legitimately - and, for restart equivalence, necessarily - gets its streams
+            if old["inc"] < inc and not old.get("completed"):
+                continue
+            for s in job["streams"]:
+                for t in old["streams"]:
+                    if (s["entropy"], s["key"]) == (t["entropy"], t["key"]) or s["state"] == t["state"]:
+                        if job["restarted"] and (job["restart_locked"] > 0 or led.get("interrupted")):
+                            # the spawn counter is rebuilt from cstep alone: once a history contains
+                            # an interruption with jobs in flight it under-counts for ever after
+                            site = "restart_with_inflight_jobs"
+                        elif job["restarted"] and job["workers"] > 1 and old["inc"] == inc:
+                            site = "restart_several_workers_initiation"
+                        elif job["restarted"]:
+                            site = "after_restart"
+                        else:
+                            site = "first_incarnation"
+                        concurrent = old["inc"] == inc and (inc, old["jid"]) not in done
+                        out.append(_viol(
+                            "C07", "stream_reused",
+                            f"job {inc}/{job['jid']} (ens {job['ens']}, {s['label']}) has the same "
+                            f"stream entropy={s['entropy']} key={s['key']} as job {old['inc']}/"
+                            f"{old['jid']} (ens {old['ens']}, {t['label']})", inc, case, site=site))
+                        break
+                else:
+                    continue
+                break
+            else:
+                continue
+            break
+        led["jobs"].append(job)
+    for j in led["jobs"]:
+        if (j["inc"], j["jid"]) in done:
+            j["completed"] = True
+    if code != 0 and any(j["inc"] == inc and not j.get("completed") for j in led["jobs"]):
+        led["interrupted"] = True
+    return out
